@@ -55,7 +55,12 @@ def evaluate(prop, us, timeout=60):
     oc.model = [None] * len(us)
     for i, r in zip(where, replies):
         oc.model[i] = units.norm_model(us[i]["kind"], us[i]["params"], r)
+    # a unit on which the implementation exceeded the harness's own per-case wall-clock allowance is INCONCLUSIVE: no property is
+    # about running time (the exact algorithms are exponential), so it is neither compared nor judged; it is counted in the evidence
+    oc.timeouts = {i for i, r in enumerate(oc.impl) if isinstance(r, dict) and r.get("exc") == "Timeout"}
     for i, u in enumerate(us):
+        if i in oc.timeouts:
+            continue
         try:
             m = units.compare(u["kind"], u["params"], u.get("cmp"), oc.impl[i], oc.model[i])
         except Exception as e:   # malformed implementation output is a disagreement, not a crash
@@ -65,6 +70,8 @@ def evaluate(prop, us, timeout=60):
     # judges: property predicates evaluated on the implementation's output
     jreqs, jwhere = [], []
     for i, u in enumerate(us):
+        if i in oc.timeouts:
+            continue
         try:
             for j in prop.judge_requests(u, oc.impl[i], oc.model[i]):
                 # j = (cmd, args, predicate(reply)->None|text) or ("py", None, text-or-None)
@@ -108,7 +115,7 @@ def shrink(prop, u, still_fails, budget=60):
                 q["ids"] = p["ids"][:i] + p["ids"][i + 1:]
             if q["vals"]:
                 cands.append(q)
-        if "k" in p and p["k"] > 1:
+        if "k" in p and p["k"] > 1 and p.get("algo") != "cbldm":      # cbldm accepts two bins only: a smaller k is another (invalid) request
             q = dict(p)
             q["k"] = p["k"] - 1
             cands.append(q)
@@ -150,7 +157,7 @@ def main():
     prop = importlib.import_module("harness.props." + pid.lower())
     known = load_known()
     os.makedirs(os.path.join(VERIF, "work"), exist_ok=True)
-    replay_dir = os.path.join(VERIF, "work", "replay")
+    replay_dir = os.environ.get("VERIF_REPLAY_DIR") or os.path.join(VERIF, "work", "replay")
     os.makedirs(replay_dir, exist_ok=True)
 
     violations = []        # (text, replay path)
@@ -187,6 +194,8 @@ def main():
         # ---- 3-5. run, compare, judge
         oc = evaluate(prop, us, timeout=getattr(prop, "CASE_TIMEOUT", 60))
         extra = prop.extra_checks(rng, tier, us, oc) if hasattr(prop, "extra_checks") else []
+        _to = {id(us[i]) for i in getattr(oc, "timeouts", ())}
+        extra = [e for e in extra if not any(id(u) in _to for u in e.get("units", []))]     # a group with a timed-out member is inconclusive
         # extra: list of {"text":..., "units":[...], "kind": "judge"|"corr"} property-level checks (metamorphic pairs, histories...)
 
         # ---- 5b. the extracted driver against vm_compute on the same requests (sample)
